@@ -700,6 +700,24 @@ func Join(p Proc) {
 	t.wait = wNone
 }
 
+// Quiesce blocks until the calling task is the only live task of its
+// process (everything it started has run to completion).
+//
+//go:norace
+func Quiesce() {
+	s := cur
+	if s == nil {
+		return
+	}
+	t := &s.tasks[s.running]
+	if t.killed {
+		return
+	}
+	t.wait = wQuiesce
+	s.reschedule()
+	t.wait = wNone
+}
+
 // Crashed reports whether p was killed by a crash fault or a panic.
 //
 //go:norace
